@@ -123,12 +123,12 @@ PROPS = {
     ),
     'C17': dict(
         lean=['Props.C17', 'Props.C17Spec', 'Props.FactsProc', 'Props.Pipeline'],
-        streams=['processor', 'e2e'],
+        streams=['processor', 'e2e', 'names'],
         project={'processor': r'^< (c\.|t\.|ret|panic)'}, rule=PROC_RULE, trusted=PROC_TRUSTED,
         assumptions=PROC_ASSUME['C17'],
     ),
     'C06': dict(
-        lean=['Props.C06', 'Props.C11Thr', 'Props.PipeThr'],
+        lean=['Props.C06', 'Props.C06Spec', 'Props.C11Thr', 'Props.PipeThr'],
         streams=['throttle'],
         rule='same schedules as C05 (five phase styles, base-recorder start/write/stop failures in 35% of cases, restarts in the middle of a trigger); '
              'non-trivial = at least one throttled event; distinct by op text',
@@ -161,8 +161,8 @@ PROPS = {
     ),
     'C10': dict(
         lean=['Props.C10'],
-        streams=['fs', 'names'],
-        project={'fs': r'^< (?!sys write)'},
+        streams=['fs', 'names', 'e2e'],
+        project={'fs': r'^< (?!sys write)', 'e2e': r'^$'},
         rule='op sequences of the real motion, test and continuous CPTVFileRecorders (start / write n frames / stop / discard) run under strace; every '
              'system call is a crash point at which the directory model is checked; each case ends with a simulated crash (open recordings abandoned), '
              'decoding of every finished file with the standard reader and the real start-up clean-up; non-trivial = at least one rename; distinct by op text',
@@ -254,7 +254,7 @@ MANIFEST_TEXT = {
         design_ref='DESIGN.md 5/C17'),
     'C06': dict(
         text='Theorem for every bucket, minimum length, upstream request list obeying the recorder protocol, any clock and every base-failure pattern: base calls are properly paired, a stop is forwarded iff a file is open, a throttle-cut file holds >= minLen frames, exactly one throttled event per suppressed start or cut (none per frame), and until the first throttling every request is forwarded unchanged.',
-        note=_COMMON_NOTE + 'the executable monitor that states the property is part of the trusted reading of the statement (lean/TR/ProcMon.lean, lean/TR/ThrMon.lean).',
+        note=_COMMON_NOTE + 'the executable monitors used on real traces are proved equivalent, for every trace, to monitor-free statements (Props/C06Spec.monC06_iff: base calls properly paired, every cut file holds >= minimum-length frames, exactly one event per suppressed start or cut and none otherwise, transparent until the first throttling, stops forwarded iff a file is open; monC11Thr_iff: every file is started with the arguments of the latest upstream start); budget decisions are judged against the bucket model run in lockstep on the real requests.',
         technique='Lean 4 proof (product invariant of model x ghost x monitor, induction over the event list) + differential correspondence',
         design_ref='DESIGN.md 5/C06'),
     'C07': dict(
